@@ -33,15 +33,87 @@ def flipTag (fs : List (Option Nat)) : String :=
   let distinct := (fs.filterMap id).eraseDups.length
   s!"flips{k}d{distinct}"
 
+/-- pseudo-random valuations for diagrams too wide for a full truth table (SplitMix-style mixing of the index) -/
+def sampleVal (n k : Nat) : Nat → Bool := fun j =>
+  let z := (k + 1) * 0x9E3779B97F4A7C15 % 2 ^ 64
+  let z := (z ^^^ (z >>> 29)) * 0xBF58476D1CE4E5B9 % 2 ^ 64
+  let z := (z ^^^ (z >>> 32))
+  j < n && (z >>> (j % 60)) % 2 == 1
+
+def samples : Nat := 4096
+
+/-- `v` with the bit of the flip variable inverted -/
+def invV (f : Option Nat) (v : Nat → Bool) : Nat → Bool :=
+  match f with
+  | none => v
+  | some x => fun j => if j == x then !(v j) else v j
+
+/-- cofactor of pointer `p` on variable `d` -/
+def cof (A : Arr) (n p d : Nat) (b : Bool) : Nat :=
+  if varOf A n p == d then (let nd := nodeAt A p; if b then nd.high else nd.low) else p
+
+def isF (f : Option Nat) (d : Nat) : Bool := f == some d
+
+/-- exact check for wide operands, independent of the apply model: side-by-side walk of (result, L, R) down to
+    terminal triples; on decision variable `d` with value `b` the result follows `b`, the operands follow `b`
+    inverted once for the output flip and once more for their own flip -/
+def walk2 (X L R : Arr) (n : Nat) (c : Bool → Bool → Bool) (fl fr fo : Option Nat) :
+    Nat → Nat → Nat → Nat → Std.HashSet (Nat × Nat × Nat) → Bool × Std.HashSet (Nat × Nat × Nat)
+  | 0, _, _, _, seen => (false, seen)
+  | fuel + 1, x, l, r, seen =>
+    if x < 2 && l < 2 && r < 2 then ((x == 1) == c (l == 1) (r == 1), seen)
+    else if seen.contains (x, l, r) then (true, seen)
+    else
+      let d := min (varOf X n x) (min (varOf L n l) (varOf R n r))
+      if d ≥ n then (false, seen) else
+      let step := fun (b : Bool) (sn : Std.HashSet (Nat × Nat × Nat)) =>
+        let u := b != isF fo d
+        walk2 X L R n c fl fr fo fuel (cof X n x d b) (cof L n l d (u != isF fl d)) (cof R n r d (u != isF fr d)) sn
+      let r1 := step true (seen.insert (x, l, r))
+      if !r1.1 then r1 else step false r1.2
+
+def walk3 (X A B C : Arr) (n : Nat) (c : Bool → Bool → Bool → Bool) (fa fb fc fo : Option Nat) :
+    Nat → Nat → Nat → Nat → Nat → Std.HashSet (Nat × Nat × Nat × Nat) → Bool × Std.HashSet (Nat × Nat × Nat × Nat)
+  | 0, _, _, _, _, seen => (false, seen)
+  | fuel + 1, x, p, q, r, seen =>
+    if x < 2 && p < 2 && q < 2 && r < 2 then ((x == 1) == c (p == 1) (q == 1) (r == 1), seen)
+    else if seen.contains (x, p, q, r) then (true, seen)
+    else
+      let d := min (min (varOf X n x) (varOf A n p)) (min (varOf B n q) (varOf C n r))
+      if d ≥ n then (false, seen) else
+      let step := fun (b : Bool) (sn : Std.HashSet (Nat × Nat × Nat × Nat)) =>
+        let u := b != isF fo d
+        walk3 X A B C n c fa fb fc fo fuel (cof X n x d b) (cof A n p d (u != isF fa d)) (cof B n q d (u != isF fb d))
+          (cof C n r d (u != isF fc d)) sn
+      let r1 := step true (seen.insert (x, p, q, r))
+      if !r1.1 then r1 else step false r1.2
+
 def checkBin (n : Nat) (X L R : Arr) (c : Bool → Bool → Bool) (fl fr fo : Option Nat) : Option String :=
-  if n > maxTT then none else
+  if n > maxTT then
+    -- wide operands: 4 096 pseudo-random valuations, then the exact walk
+    if !((List.range samples).all fun k =>
+        let v := sampleVal n k
+        let u := invV fo v
+        evalArr X v == c (evalArr L (invV fl u)) (evalArr R (invV fr u))) then some "bit-inversion(sampled)"
+    else if !(walk2 X L R n c fl fr fo (n + 2) (root X) (root L) (root R) {}).1 then some "bit-inversion(exact-walk)"
+    else none
+  else
   let tx := ttOf X n; let tl := ttOf L n; let tr := ttOf R n
   let mo := flipMask n fo; let ml := flipMask n fl; let mr := flipMask n fr
   if (List.range (2 ^ n)).all fun i => tx[i]! == c tl[(i ^^^ mo) ^^^ ml]! tr[(i ^^^ mo) ^^^ mr]!
   then none else some "bit-inversion"
 
 def checkTer (n : Nat) (X A B C : Arr) (c : Bool → Bool → Bool → Bool) (fa fb fc fo : Option Nat) : Option String :=
-  if n > maxTT then none else
+  if n > maxTT then
+    if !((List.range samples).all fun k =>
+        let v := sampleVal n k
+        let u := invV fo v
+        evalArr X v == c (evalArr A (invV fa u)) (evalArr B (invV fb u)) (evalArr C (invV fc u))) then
+      some "bit-inversion(sampled)"
+    else if !(walk3 X A B C n c fa fb fc fo (n + 2) (root X) (root A) (root B) (root C) {}).1 then
+      some "bit-inversion(exact-walk)"
+    else none
+  else
   let tx := ttOf X n; let ta := ttOf A n; let tb := ttOf B n; let tc := ttOf C n
   let mo := flipMask n fo
   if (List.range (2 ^ n)).all fun i =>
@@ -78,7 +150,8 @@ def handle (key : String) (ins obs : List String) : Verdict :=
       { agree := model == fused, model, fail,
         nontrivial := !mustPanic && (parseArr? fused).any (·.size > 2) && [fl, fr, fo].any Option.isSome,
         tags := ["bin", flipTag [fl, fr, fo], if mustPanic then "panic" else "ok", s!"n{n}"] ++
-          (if unused then ["flip-unused-var"] else []) }
+          (if unused then ["flip-unused-var"] else []) ++
+          (if L.size > 65536 || R.size > 65536 then ["big-operand"] else []) }
     | _, _, _, _, _, _ => Verdict.bad "args"
   | "C04.ter", [table, conn, a, b, c, fa, fb, fc, fo], [fused, sep] =>
     match conn.toNat?, parseArr? a, parseArr? b, parseArr? c,
@@ -100,7 +173,8 @@ def handle (key : String) (ins obs : List String) : Verdict :=
           | _, _ => some ("flip-bounds:unexpected-outcome:" ++ fused ++ "/" ++ sep)
       { agree := model == fused, model, fail,
         nontrivial := !mustPanic && (parseArr? fused).any (·.size > 2) && [fa, fb, fc, fo].any Option.isSome,
-        tags := ["ter", flipTag [fa, fb, fc, fo], if mustPanic then "panic" else "ok", s!"n{n}"] }
+        tags := ["ter", flipTag [fa, fb, fc, fo], if mustPanic then "panic" else "ok", s!"n{n}"] ++
+          (if A.size > 65536 || B.size > 65536 || C.size > 65536 then ["big-operand"] else []) }
     | _, _, _, _, _, _, _, _ => Verdict.bad "args"
   | _, _, _ => Verdict.bad ("key " ++ key)
 
